@@ -1002,7 +1002,7 @@ def build_compxs(p, V, rng):
             ann += [base + ("macros", k) for k in ("fission", "nuSigF", "chi")]
         elif ichi < 0:
             mac.fission, mac.nuSigF = V.ds(ng), V.ds(ng)
-        for k in set(CX_DIFF) - {"d2Multiplier"}:
+        for k in CX_DIFF:
             rm[k] = [V.d() for _ in range(ng)]
             ann.append(base + ("metadata", k))
         mats = []
@@ -1028,8 +1028,8 @@ def build_compxs(p, V, rng):
                 r4 += [D(mac.fission[g]), D(mac.nuSigF[g])] + ([D(x) for x in mac.chi[g]] if ichi > 0 else [])
             band = lambda mm: [D(mm[r, g]) for r in range(g + nup[g], g - ndn[g] - 1, -1)]  # noqa: E731
             r4 += band(mats[0])
-            a1 = len(r4) + 1  # the container has one attribute for both A1 and A2 of the file (d1Multiplier; there is no d2Multiplier)
-            r4 += [D(rm[k if k != "d2Multiplier" else "d1Multiplier"][g]) for k in CX_DIFF]
+            a1 = len(r4) + 1  # A1 and A2 of the file are perturbed separately (they once shared one container entry: fixed defect F114)
+            r4 += [D(rm[k][g]) for k in CX_DIFF]
             if nkfam[c]:
                 rm["numPrecursorsProduced", g] = V.ia(int(nkfam[c]), 0, 9)
                 r4 += [I(x) for x in rm["numPrecursorsProduced", g]]
